@@ -181,6 +181,26 @@ CHECKS = {
         "known findings (K2, K3, K11) are attributed through deviation "
         "models, everything else is a violation.",
         "DESIGN.md 3/C08"),
+    "C14": (
+        "exploration",
+        "differential determinism (instances, call sequences, processes / "
+        "hash seeds) + free-running threads + enumeration of harness-owned "
+        "line-level schedules (sys.settrace scheduler)",
+        "Generated templates are rendered in sequences of calls on one "
+        "instance; every call must equal what a fresh instance returns for "
+        "the same arguments (text/exception, call log), repeated calls must "
+        "agree, and mutable arguments must be unchanged. The same cases are "
+        "rendered in child processes under two PYTHONHASHSEED values. Shared "
+        "PageTemplate / lazily compiling PageTemplateFile / loader are "
+        "hammered by 2..8 free-running threads at a 1 microsecond switch "
+        "interval, and - deterministically - by a scheduler that parks "
+        "threads at every line of cook / cook_check / read / load / macros "
+        "/ include: all single-preemption schedules of two threads, sampled "
+        "or all double-preemption schedules, drawn three-thread schedules.",
+        "No source hook is needed (line events of the named functions are "
+        "the yield points); races inside one line or inside C calls are only "
+        "reachable by the free-running stage.",
+        "DESIGN.md 3/C14"),
     "C15": (
         "fault_enumeration",
         "exhaustive option-pair enumeration + Hypothesis histories "
